@@ -1,5 +1,6 @@
 import Holpy.C14.Proofs
 import Holpy.C14.Closing
+import Holpy.C13.GoalTactic
 /-
 C14 — property theorems (apply half of "a suggestion does what it says"), on the model of
 `ProofState.apply_tactic` of Holpy/C13/Model.lean.  `search` advertises the gaps of the proof term
@@ -21,11 +22,6 @@ theorem open_goals_subset_advertised_partial (t : Option Seq) (s s' : Proof) (id
     (h : applyTactic s id new = .ok s') :
     cntList t s' ≤ cntList t s + cntList t (new.map (·.item)) :=
   cnt_applyTactic t s s' id new h
-
-/-- The exported lines carry the ids `id, id+1, …` — how `ProofTerm.export(prefix=id,
-subproof=False)` numbers them (the harness compares every captured export with this). -/
-def exportedAt (id : IId) (new : List NewLine) : Prop :=
-  ∀ k (h : k < new.length), (new[k]).item.id = incrId id k
 
 /-- With the goal line counted: after `apply_tactic(id, …)` the open gaps stating `t` are at most
 the earlier ones *minus the goal line* plus the `sorry` lines of the proof term stating `t`; so the
